@@ -18,27 +18,42 @@ PREF = {"stop", "err", "readahead", "outcome"}
 
 def run(ctx):
     q = ctx.quick()
-    P.model_check(ctx, ["Pbf_stop_q.cfg"] if q else ["Pbf_stop.cfg", "Pbf_stop_both.cfg", "Pbf_stop_big.cfg"])
-    P.model_must_fail(ctx, "Pbf_pinned_loop.cfg", "ReadAheadInv")
-    P.model_must_fail(ctx, "Pbf_pinned_err.cfg", "ErrPrecedenceInv")
-    P.model_must_fail(ctx, "Pbf_pinned_eof.cfg", "ErrPrecedenceInv")
-    # access-granularity model of dec.cData / the terminal error: no state with two conflicting plain accesses enabled
-    r = vlib.tlc("PbfRace", "PbfRace_fixed.cfg", ctx.scratch, workers=2, timeout=300)
-    if r.rc != 0:
-        raise vlib.Infra("PbfRace (fixed design) fails:\n" + r.out[-3000:])
-    ctx.states += r.distinct
-    ctx.transitions += r.generated
-    r = vlib.tlc("PbfRace", "PbfRace_pinned.cfg", ctx.scratch, workers=2, timeout=300)
-    if r.rc != 12:
-        raise vlib.Infra("PbfRace (pinned design) was expected to violate NoConcurrentConflict")
-    ctx.extra["deviations_shown_to_violate"].append({"cfg": "PbfRace_pinned.cfg", "invariant": "NoConcurrentConflict"})
-    # the history Judge accepts every behaviour of the Model (guards against an over-strict Judge)
-    r = vlib.tlc(P.MC, "Pbf_hist_big.cfg", ctx.scratch, workers=4, timeout=900,
-                 args=["-simulate", "num=%d" % (40 if q else 3000), "-depth", "120", "-seed", str(ctx.seed)])
-    if r.rc != 0:
-        raise vlib.Infra("Model does not satisfy its own history Judge:\n" + r.out[-4000:])
-    ctx.extra["model_histories_judged"] = 4 * (40 if q else 3000)
-    ctx.tick("model_check")
+    import concurrent.futures as cf
+    ctx.extra["deviations_shown_to_violate"] = []
+
+    def design_level():
+        # runs concurrently with the real-code stages below; a failure here is a spec problem (exit 2)
+        def race_models():
+            # access-granularity model of dec.cData / the terminal error: no state with two conflicting plain accesses enabled
+            r = vlib.tlc("PbfRace", "PbfRace_fixed.cfg", ctx.scratch, workers=1, timeout=300)
+            if r.rc != 0:
+                raise vlib.Infra("PbfRace (fixed design) fails:\n" + r.out[-3000:])
+            ctx.states += r.distinct
+            ctx.transitions += r.generated
+            r = vlib.tlc("PbfRace", "PbfRace_pinned.cfg", ctx.scratch, workers=1, timeout=300)
+            if r.rc != 12:
+                raise vlib.Infra("PbfRace (pinned design) was expected to violate NoConcurrentConflict")
+            ctx.extra["deviations_shown_to_violate"].append({"cfg": "PbfRace_pinned.cfg", "invariant": "NoConcurrentConflict"})
+
+        def hist_judge():
+            # the history Judge accepts every behaviour of the Model (guards against an over-strict Judge)
+            r = vlib.tlc(P.MC, "Pbf_hist_big.cfg", ctx.scratch, workers=4, timeout=1800,
+                         args=["-simulate", "num=%d" % (12 if q else 1500), "-depth", "100", "-seed", str(ctx.seed)])
+            if r.rc != 0:
+                raise vlib.Infra("Model does not satisfy its own history Judge:\n" + r.out[-4000:])
+            ctx.extra["model_histories_judged"] = 4 * (12 if q else 1500)
+        with cf.ThreadPoolExecutor(max_workers=8) as ex:
+            fs = [ex.submit(P.model_check, ctx, [c]) for c in (["Pbf_stop_q.cfg"] if q else ["Pbf_stop.cfg", "Pbf_stop_both.cfg", "Pbf_stop_big.cfg"])]
+            fs += [ex.submit(P.model_must_fail, ctx, "Pbf_pinned_loop.cfg", "ReadAheadInv"),
+                   ex.submit(P.model_must_fail, ctx, "Pbf_pinned_err.cfg", "ErrPrecedenceInv"),
+                   ex.submit(P.model_must_fail, ctx, "Pbf_pinned_eof.cfg", "ErrPrecedenceInv"),
+                   ex.submit(race_models), ex.submit(hist_judge)]
+            for f in fs:
+                f.result()
+    from props import c03 as X
+    X.prepare(ctx)          # one scratch copy of spec/ before threads start
+    bg = cf.ThreadPoolExecutor(max_workers=1)
+    design = bg.submit(design_level)
     configs, stop, plain = P.gen_walk_space(ctx)
     rng = random.Random(ctx.seed)
     nw = 300 if q else 15000
@@ -74,6 +89,9 @@ def run(ctx):
     ctx.tick("race_runs")
     witnesses(ctx)
     xml_half(ctx)
+    design.result()
+    bg.shutdown()
+    ctx.tick("design_level_done")
     ctx.rule = ("evaluations = runs of the real scanner with a stop (Close / cancel by the scanning goroutine / cancel by another goroutine) "
                 "at a scripted or random point; distinct = distinct (configuration, script, realised schedule); non-trivial = the history contains a stop")
     ctx.assumptions = ["in-flight Scan during a concurrent cancel may return true or false (the property constrains later Scans)",
